@@ -10,6 +10,18 @@ ID = "C04"
 MODULE = "DaliVerif.Props.C04"
 EXES = ["m_cmd"]
 GEN = True
+# tie by translation (DESIGN.md II.8): dali/address.py and the Frame operations it uses, re-translated on every run
+TIE_MODULES = ["DaliVerif.Tie.Address", "DaliVerif.Tie.Frame"]
+TIE_THEOREMS = (["Tie.Address.%s" % n for n in
+                 ("fromFrame16_tie", "fromFrame24_tie", "fromFrame16_partition", "fromFrame24_partition",
+                  "instFromFrame24_tie", "addGearShort_tie", "addGearGroup_tie", "addDeviceShort_tie",
+                  "addDeviceGroup_tie", "addGearBroadcast_tie", "addGearBroadcastUnaddressed_tie",
+                  "addDeviceBroadcast_tie", "addDeviceBroadcastUnaddressed_tie", "addInstanceNumber_tie",
+                  "addInstanceGroup_tie", "addInstanceType_tie", "addFeatureInstanceNumber_tie",
+                  "addFeatureInstanceGroup_tie", "addFeatureInstanceType_tie", "addReservedInstance_tie",
+                  "addFeatureInstanceBroadcast_tie", "addInstanceBroadcast_tie", "addFeatureDevice_tie",
+                  "addDevice_tie")] +
+                ["Tie.Frame.%s_tie" % n for n in ("getSlice", "getBit", "setSlice", "setBit")])
 THEOREMS = ["decode_partition", "gear_write_read", "device_write_read", "wrong_size_refused",
             "eq_iff", "gear_ne_device", "inst_partition", "inst_wrong_size", "inst_write_read",
             "inst_eq_iff", "order_ok"]
